@@ -454,6 +454,119 @@ func emitFragment(e *emitter, p *pkg) {
 		after = rebuilt != 0 && unm != 0 && rebuilt < rwPos[0] && unm < rwPos[0]
 	}
 	e.boolean("rxTranscriptAfterRebuild", after)
+
+	// --- stale-buffer cleanup: which clock stamps a buffer, which clock the cleanup reads
+	// fragStampClock: the right-hand side of the assignments to `<x>.receivedAt` in fragment.go / conn.go
+	// (one expression expected; several different ones are joined by " | ");
+	// fragCleanupClocks: every expression the `now` of cleanupStaleFragments is assigned from, in order;
+	// fragCleanupCond: the staleness test; fragCleanupTimeoutSeconds: the timeout readHandshake passes
+	var stamps []string
+	for _, fd := range p.funcs {
+		if fd.Body == nil {
+			continue
+		}
+		ast.Inspect(fd.Body, func(n ast.Node) bool {
+			if as, ok := n.(*ast.AssignStmt); ok && len(as.Lhs) == len(as.Rhs) {
+				for i, l := range as.Lhs {
+					if se, ok := l.(*ast.SelectorExpr); ok && se.Sel.Name == "receivedAt" {
+						r := p.src(as.Rhs[i])
+						dup := false
+						for _, x := range stamps {
+							dup = dup || x == r
+						}
+						if !dup {
+							stamps = append(stamps, r)
+						}
+					}
+				}
+			}
+			return true
+		})
+	}
+	sortStrings(stamps)
+	strFact("fragStampClock", strings.Join(stamps, " | "), len(stamps) > 0)
+	var nows []string
+	cond := ""
+	if fd := p.funcs["Conn.cleanupStaleFragments"]; fd != nil && fd.Body != nil {
+		ast.Inspect(fd.Body, func(n ast.Node) bool {
+			switch x := n.(type) {
+			case *ast.AssignStmt:
+				if len(x.Lhs) == len(x.Rhs) {
+					for i, l := range x.Lhs {
+						if p.src(l) == "now" {
+							nows = append(nows, p.src(x.Rhs[i]))
+						}
+					}
+				}
+			case *ast.IfStmt:
+				if strings.Contains(p.src(x.Cond), "receivedAt") && cond == "" {
+					cond = p.src(x.Cond)
+				}
+			}
+			return true
+		})
+	}
+	e.strList("fragCleanupClocks", nows)
+	strFact("fragCleanupCond", cond, cond != "")
+	// the timeout at the call site, in seconds (N * time.Second / time.Minute, through package constants)
+	var dur func(x ast.Expr, depth int) (int64, bool) // nanoseconds
+	dur = func(x ast.Expr, depth int) (int64, bool) {
+		if depth > 20 {
+			return 0, false
+		}
+		switch t := x.(type) {
+		case *ast.SelectorExpr:
+			if p.src(t.X) == "time" {
+				switch t.Sel.Name {
+				case "Nanosecond":
+					return 1, true
+				case "Microsecond":
+					return 1e3, true
+				case "Millisecond":
+					return 1e6, true
+				case "Second":
+					return 1e9, true
+				case "Minute":
+					return 60e9, true
+				case "Hour":
+					return 3600e9, true
+				}
+			}
+		case *ast.Ident:
+			if ce, ok := p.consts[t.Name]; ok {
+				return dur(ce, depth+1)
+			}
+		case *ast.ParenExpr:
+			return dur(t.X, depth+1)
+		case *ast.BasicLit:
+			return p.evalInt(t, 0, 0)
+		case *ast.BinaryExpr:
+			a, ok1 := dur(t.X, depth+1)
+			b, ok2 := dur(t.Y, depth+1)
+			if ok1 && ok2 {
+				switch t.Op {
+				case token.MUL:
+					return a * b, true
+				case token.ADD:
+					return a + b, true
+				}
+			}
+		}
+		return 0, false
+	}
+	var secs int64
+	okSecs := false
+	if fd := p.funcs["Conn.readHandshake"]; fd != nil && fd.Body != nil {
+		ast.Inspect(fd.Body, func(n ast.Node) bool {
+			if ce, ok := n.(*ast.CallExpr); ok && strings.HasSuffix(p.src(ce.Fun), ".cleanupStaleFragments") && len(ce.Args) == 1 {
+				if ns, ok := dur(ce.Args[0], 0); ok && ns%1e9 == 0 {
+					secs, okSecs = ns/1e9, true
+				}
+			}
+			return true
+		})
+	}
+	e.nat("fragCleanupTimeoutSeconds", secs, okSecs)
 }
 
 func fragItoa(i int) string {
